@@ -79,6 +79,10 @@ func runCase(r *vk.Run, p *world.Produced, c Case) []bool {
 		return map[string]any{"case": c, "write_logs_per_process": logs}
 	}
 	fail := func(clause, detail string) {
+		if strings.Contains(detail, world.ErrWatchdog.Error()) {
+			r.Inconclusive("watchdog: " + detail)
+			return
+		}
 		id := "C05-state-before-block"
 		if r.IsKnown(id) && (strings.Contains(detail, "block-present") || strings.Contains(detail, "not retrievable")) {
 			r.Finding(id, clause, detail, wit())
@@ -233,9 +237,11 @@ func runCase(r *vk.Run, p *world.Produced, c Case) []bool {
 	for _, pr := range probs {
 		viol = append(viol, pr.String())
 	}
-	r.Hit("da-included-reaches-tip")
-	if d := f.N.M.GetDAIncludedHeight(); d != p.Tip() && len(viol) == 0 {
-		viol = append(viol, fmt.Sprintf("da-included: all blobs are on DA and scanned, chain height is %d, DA-included height is %d", p.Tip(), d))
+	// (the DA-included height after recovery is C07's business: observed here, not judged)
+	if d := f.N.M.GetDAIncludedHeight(); d == p.Tip() {
+		r.Count("da_included_reached_tip_after_recovery", 1)
+	} else {
+		r.Count("da_included_below_tip_after_recovery", 1)
 	}
 	_ = f.Stop()
 	for _, pr := range monitors.CheckHeightWritesAcross(f.Logs, r.Hit) {
@@ -334,5 +340,4 @@ func Run(r *vk.Run) {
 	r.SetExhaustive(true)
 	r.Set("enumerated_tuples", len(tuples))
 	r.Require("restart-ok", 100)
-	r.Require("da-included-reaches-tip", 50)
 }
